@@ -363,6 +363,18 @@ def fixpointHyp (parts : List (Topic × List Nat)) (members : List MemberIn) : B
   !s.cur.isEmpty && s.unassigned.all (fun p => (consumersOf s p).isEmpty) &&
   isBalanced (setAsideFixed (assignUnassigned { s with subs := s.cur.map (·.1) })).1
 
+/-- the hypotheses of the stickiness theorem for identical subscriptions without new members
+    (`Props/C15.lean: c15_identical_subscriptions_keep`), as a test the driver can run: distinct
+    ids, no partition claimed twice, every claim still valid, identical subscriptions, claim sizes
+    within one of each other -/
+def keepHyp (parts : List (Topic × List Nat)) (members : List MemberIn) : Bool :=
+  !members.isEmpty &&
+  decide ((members.map (·.id)).Nodup) &&
+  members.all (fun m => decide (m.prev.Nodup)) &&
+  members.all (fun a => members.all (fun b => a.id == b.id || a.prev.all (fun p => !b.prev.contains p))) &&
+  members.all (fun m => m.prev.all (fun p => (potentialOf parts m).contains p)) &&
+  members.all (fun a => members.all (fun b => a.subs == b.subs && decide (a.prev.length ≤ b.prev.length + 1)))
+
 /-! ### driver: `assign <parts> <members> <prev> <oracle>`
     `prev`: `m=t:p,p;t:p|m=…` (the user data of each member), `oracle`: `t:p,t:p` -/
 open AkVerif.Util
@@ -396,6 +408,14 @@ def handle : List String → Option String
       { id := m, subs := subs,
         prev := ((prevOut.find? (·.1 == m)).map (fun mo => mo.2.flatMap (fun tp => tp.2.map (fun p => (tp.1, p))))).getD [] : MemberIn }
     some (toString (fixpointHyp parts members))
+  | ["keep-hyp", ps, ms, prev] => do
+    let parts ← parseParts ps
+    let mems ← parseMembers ms
+    let prevOut ← parseOutput prev
+    let members := mems.map fun (m, subs) =>
+      { id := m, subs := subs,
+        prev := ((prevOut.find? (·.1 == m)).map (fun mo => mo.2.flatMap (fun tp => tp.2.map (fun p => (tp.1, p))))).getD [] : MemberIn }
+    some (toString (keepHyp parts members))
   | _ => none
 
 end AkVerif.StickyAlg
